@@ -26,13 +26,13 @@ Proof.
   pose proof (reach_init true) as R.
   eapply reach_step in R; [|exact (s_invoke true _ (CW W1) false ltac:(discriminate))]. cbn in R.
   eapply reach_step in R; [|refine (s_commit true _ 0 W1 T1 0 false _ _ _ _ _); dec]. cbn in R.
-  eapply reach_step in R; [|refine (s_index true _ 0 [] _ _); dec]. cbn in R.
+  eapply reach_step in R; [|refine (s_index true _ _); dec]. cbn in R.
   eapply reach_step in R; [|refine (s_return_write true _ 0 1 false _ _ _); try dec; right; dec]. cbn in R.
   eapply reach_step in R; [|exact (s_invoke true _ (CR G) false ltac:(discriminate))]. cbn in R.
   eapply reach_step in R; [|refine (s_read1 true _ 1 G 1 false _ _ _ _); try dec; right; dec]. cbn in R.
   eapply reach_step in R; [|exact (s_invoke true _ (CW W2) false ltac:(discriminate))]. cbn in R.
   eapply reach_step in R; [|refine (s_commit true _ 2 W2 T2 1 false _ _ _ _ _); dec]. cbn in R.
-  eapply reach_step in R; [|refine (s_index true _ 2 [] _ _); dec]. cbn in R.
+  eapply reach_step in R; [|refine (s_index true _ _); dec]. cbn in R.
   eapply reach_step in R; [|refine (s_read2_split true _ 1 G 1 false 1 _ _ _ _); dec]. cbn in R.
   eapply reach_step in R; [|refine (s_return true _ 1 _ _); dec]. cbn in R.
   eapply reach_step in R; [|refine (s_return_write true _ 2 2 false _ _ _); try dec; right; dec]. cbn in R.
@@ -121,11 +121,11 @@ Proof.
   pose proof (reach_init true) as R.
   eapply reach_step in R; [|exact (s_invoke true _ (CW S1) false ltac:(discriminate))]. cbn in R.
   eapply reach_step in R; [|refine (s_commit true _ 0 S1 [EKv 0 1] 0 false _ _ _ _ _); dec]. cbn in R.
-  eapply reach_step in R; [|refine (s_index true _ 0 [] _ _); dec]. cbn in R.
+  eapply reach_step in R; [|refine (s_index true _ _); dec]. cbn in R.
   eapply reach_step in R; [|refine (s_return_write true _ 0 1 false _ _ _); try dec; right; dec]. cbn in R.
   eapply reach_step in R; [|exact (s_invoke true _ (CW S2) false ltac:(discriminate))]. cbn in R.
   eapply reach_step in R; [|refine (s_commit true _ 1 S2 [EKv 0 2] 1 false _ _ _ _ _); dec]. cbn in R.
-  eapply reach_step in R; [|refine (s_index true _ 1 [] _ _); dec]. cbn in R.
+  eapply reach_step in R; [|refine (s_index true _ _); dec]. cbn in R.
   eapply reach_step in R; [|refine (s_return_write true _ 1 2 false _ _ _); try dec; right; dec]. cbn in R.
   eapply reach_step in R; [|exact (s_invoke true _ (CR GA) false ltac:(discriminate))]. cbn in R.
   eapply reach_step in R; [|refine (s_snap_stale true _ 2 GA 2 false 1 1 _ _ _ _ _ _ _ _ _); dec]. cbn in R.
@@ -233,7 +233,7 @@ Proof.
   pose proof (reach_init true) as R.
   eapply reach_step in R; [|exact (s_invoke true _ (CW S1) false ltac:(discriminate))]. cbn in R.
   eapply reach_step in R; [|refine (s_commit true _ 0 S1 [EKv 0 1] 0 false _ _ _ _ _); dec]. cbn in R.
-  eapply reach_step in R; [|refine (s_index true _ 0 [] _ _); dec]. cbn in R.
+  eapply reach_step in R; [|refine (s_index true _ _); dec]. cbn in R.
   eapply reach_step in R; [|refine (s_return_write true _ 0 1 false _ _ _); try dec; right; dec]. cbn in R.
   eapply reach_step in R; [|refine (s_compact true _ 0 _); dec]. cbn in R.
   eapply reach_step in R; [|exact (s_invoke true _ (CW C2) false ltac:(discriminate))]. cbn in R.
@@ -248,8 +248,9 @@ Proof.
       by (refine (s_commit true _ 1 C2 [EKv 0 2] 1 false _ _ _ _ _); dec)
   end.
   eapply reach_step in R; [|exact St]. cbn in R.
-  eapply reach_step in R; [|refine (s_index true _ 1 [] _ _); dec]. cbn in R.
-  eapply reach_step in R; [|refine (s_return_write true _ 1 2 false _ _ _); try dec; left; dec].
+  eapply reach_step in R; [|refine (s_index true _ _); dec]. cbn in R.
+  eapply reach_step in R; [|refine (s_index true _ _); dec]. cbn in R.
+  eapply reach_step in R; [|refine (s_return_write true _ 1 2 false _ _ _); try dec; right; dec].
   cbn in R.
   eexists _, _, _. split; [exact R0|]. split; [exact St|]. split; [vm_compute; reflexivity|].
   split; [exact R|]. vm_compute. reflexivity.
